@@ -94,14 +94,18 @@ def base_env():
 GATE_RE = re.compile(r"\b(Admitted|admit|Axiom|Parameter|Conjecture|Unset\s+Guard|bypass_check|type-in-type|Admit\s+Obligations)\b")
 
 
-def grep_gate():
-    """Reject the development if a .v file declares an axiom, admits, or disables a check."""
+def grep_gate(only=None):
+    """Reject the development if a .v file (of the property's dependency closure when `only`
+    is given) declares an axiom, admits, or disables a check."""
     bad = []
+    only = None if only is None else {os.path.normpath(os.path.join(COQ, f)) for f in only}
     for root, _, fs in os.walk(COQ):
         for f in fs:
             if not f.endswith(".v") or f.startswith("cases_") or f.startswith("Tmpg"):
                 continue
             path = os.path.join(root, f)
+            if only is not None and os.path.normpath(path) not in only:
+                continue
             depth = 0
             for i, line in enumerate(open(path, errors="replace"), 1):
                 # strip comments (nesting-aware, line granularity is enough for this gate)
@@ -154,7 +158,8 @@ def build(prop_id, model_targets):
         b.translate_ok = rc == 0
         b.translate_log = out
         _run(["bash", os.path.join(COQ, "gen_project.sh")], cwd=COQ)
-        gate = grep_gate()
+        b.files = closure_files("Props/%s.v" % prop_id)
+        gate = grep_gate(b.files)
         target = "Props/%s.vo" % prop_id
         rc, out = _run(["make", "-j16", target], cwd=COQ, timeout=3000)
         b.proof_log = out
